@@ -109,4 +109,17 @@ def Builder.addColumn (b : Builder) (i : Info) : Builder :=
     leaves := b.leaves ++ [⟨idx, defInc i.rep, repInc i.rep⟩],
     capacity := growCap b.capacity (idx + 1) 64 }
 
+/-- `carquet_schema_add_group` (under the root only): one more element without type and without
+children, no leaf; the root's child count grows; capacity as for a column -/
+def Builder.addGroup (b : Builder) (i : Info) : Builder :=
+  { elements := (match b.elements with
+                 | [] => []
+                 | root :: rest => { root with numChildren := root.numChildren + 1 } :: rest) ++ [⟨{ i with ptype := none, typeLength := 0 }, 0⟩],
+    leaves := b.leaves,
+    capacity := growCap b.capacity (b.elements.length + 1) 64 }
+
+/-- one builder call: an entry without physical type is a group -/
+def Builder.add (b : Builder) (i : Info) : Builder :=
+  if i.ptype.isSome then b.addColumn i else b.addGroup i
+
 end Carquet.Impl.Schema
